@@ -117,6 +117,44 @@ JApplyTable(e, st) ==
   LET adm(dv) == \A i \in DOMAIN e.rows : ApplyRowOk(e, e.rows[i], st, dv)
   IN  WithDevs(adm, "Apply:successor", st)
 
+JParseProblem(e, st) ==
+  LET D == st[e.d].D
+      isExc == Has(e.out, "exc")
+      j == e.out.prob
+      obsProj == [name |-> j.name, objs |-> Range(j.objs),
+                  facts |-> StOfJson(j.init).facts, fl |-> StOfJson(j.init).fl,
+                  glits |-> {<<x[1], x[2]>> : x \in Range(j.goal_lits)},
+                  gcmps |-> {FormulaOfTree(x) : x \in Range(j.goal_cmps)}]
+      adm(dv) == LET exp == ParseProblem_Exp(D, e.tree, dv)
+                 IN  IF isExc THEN ~exp.accept
+                     ELSE exp.accept /\ StJsonClean(j.init) /\ ProjEq(exp.proj, obsProj)
+      P == ProblemOfTree(e.tree)
+      s2 == IF isExc THEN st
+            ELSE Put(st, e.h, [kind |-> "problem", P |-> P, u |-> UniverseOf(D, P.objs)])
+  IN  WithDevs(adm, IF isExc THEN "ParseProblem:rejected-well-formed" ELSE
+                    (IF ParseProblem_Exp(D, e.tree, {}).accept THEN "ParseProblem:content" ELSE "ParseProblem:accepted-ill-formed"), s2)
+
+\* the initial state of a parsed problem, built the way the exporters build it
+JInitialState(e, st) ==
+  LET want == st[e.p].P.init
+      s2 == Put(st, e.h, [kind |-> "state", st |-> [facts |-> want.facts, fl |-> want.fl], hdr |-> ":init"])
+  IN  IF ~Has(e.out, "st") THEN Fail("InitialState:exception", st)
+      ELSE IF StJsonClean(e.out.st) /\ StEq([facts |-> want.facts, fl |-> want.fl], StOfJson(e.out.st)) /\ e.out.st.hdr = ":init"
+           THEN Ok(s2) ELSE Fail("InitialState:content", s2)
+
+JTypeMatrix(e, st) ==
+  LET D == st[e.d].D
+      names == TypeNamesOf(D) \cup {"object"}
+  IN  IF /\ {<<r[1], r[2]>> : r \in Range(e.rows)} = names \X names
+         /\ \A i \in DOMAIN e.rows : e.rows[i][3] = SubTypeOf(D, e.rows[i][1], e.rows[i][2])
+      THEN Ok(st) ELSE Fail("TypeMatrix", st)
+
+JTypeGraph(e, st) ==
+  LET D == st[e.d].D
+  IN  IF /\ {<<x[1], x[2]>> : x \in Range(e.edges)} = TypeEdges(D)
+         /\ Range(e.nodes) = TypeNamesOf(D) \cup {"object"}
+      THEN Ok(st) ELSE Fail("TypeGraph", st)
+
 \* Purity: every live handle still has the value the store holds for it
 SnapOk(h, v, st) ==
   IF h \notin DOMAIN st THEN TRUE
@@ -135,6 +173,10 @@ Judge(e, st) ==
     [] e.c = "IsApplicable" -> JIsApplicable(e, st)
     [] e.c = "Apply"        -> JApply(e, st)
     [] e.c = "Snap"         -> JSnap(e, st)
+    [] e.c = "ParseProblem" -> JParseProblem(e, st)
+    [] e.c = "InitialState" -> JInitialState(e, st)
+    [] e.c = "TypeMatrix"   -> JTypeMatrix(e, st)
+    [] e.c = "TypeGraph"    -> JTypeGraph(e, st)
     [] e.c = "AppTable"     -> JAppTable(e, st)
     [] e.c = "ApplyTable"   -> JApplyTable(e, st)
     [] OTHER                -> Fail("machinery:unknown-event:" \o e.c, st)
@@ -144,6 +186,8 @@ Explain(e, st) ==
   CASE e.c = "IsApplicable" -> IsApplicable_Exp(st[e.d].D, st[e.u].u, e.act, e.args, st[e.s].st, {})
     [] e.c = "Apply" -> Apply_Exp(st[e.d].D, st[e.u].u, e.act, e.args, st[e.s].st, e.allow, e.skip, {})
     [] e.c = "ParseDomain" -> ParseDomain_Exp(e.tree)
+    [] e.c = "ParseProblem" -> ParseProblem_Exp(st[e.d].D, e.tree, {})
+    [] e.c = "TypeMatrix" -> {<<a, b>> \in (TypeNamesOf(st[e.d].D) \cup {"object"}) \X (TypeNamesOf(st[e.d].D) \cup {"object"}) : SubTypeOf(st[e.d].D, a, b)}
     [] e.c = "AppTable" ->
          LET bad == {i \in DOMAIN e.rows : ~AppRowOk(e, e.rows[i], st, {})}
              i == CHOOSE j \in bad : TRUE
